@@ -374,6 +374,20 @@ func (eng *Engine) runTop(c *FnCtx, fn *ssa.Function, fs *FuncSpec) {
 			c.oblige("ensures", "fresh:"+fr, c.tags, r.cond, Or(Eq(ref, IntT(0)), Ge(ref, c.get(c.entry, "$alloc", SInt))), f.pos(fn.Pos()), "result "+fr+" is freshly allocated")
 		}
 	}
+	if !c.pass1 && len(fs.NoRecursion) > 0 {
+		tags := fs.NoRecursion
+		if len(tags) == 1 && tags[0] == "*" {
+			tags = c.tags
+		}
+		cyc := eng.staticCycle(fn)
+		goal := TTrue
+		src := "the function does not reach itself through static calls (bounded stack)"
+		if cyc != "" {
+			goal = TFalse
+			src += ": cycle " + cyc
+		}
+		c.oblige("no-recursion", "", tags, TTrue, goal, f.pos(fn.Pos()), src)
+	}
 	if !c.pass1 {
 		o := &Obligation{Name: c.name + "/cover#return", Kind: "cover", Func: c.name, Tags: c.tags, Goal: TFalse, Guard: Or(anyRet...), NFacts: len(c.facts), Cover: true, ctx: c, Src: "some return is reachable under the contract (vacuity guard)"}
 		c.obls = append(c.obls, o)
@@ -577,4 +591,62 @@ func (eng *Engine) mergeInterfaceContracts() error {
 		fs.ModSrc = append(fs.ModSrc, ifs.ModSrc...)
 	}
 	return nil
+}
+
+// staticCycle reports a static call cycle through fn ("" if none).
+func (eng *Engine) staticCycle(fn *ssa.Function) string {
+	seen := map[*ssa.Function]bool{}
+	var path []string
+	var dfs func(f *ssa.Function) bool
+	dfs = func(f *ssa.Function) bool {
+		if f == nil || len(f.Blocks) == 0 {
+			return false
+		}
+		inRepo := f.Pkg != nil && strings.HasPrefix(f.Pkg.Pkg.Path(), repoModule)
+		if !inRepo && f.Parent() == nil {
+			return false
+		}
+		for _, b := range f.Blocks {
+			for _, in := range b.Instrs {
+				var common *ssa.CallCommon
+				switch t := in.(type) {
+				case *ssa.Call:
+					common = &t.Call
+				case *ssa.Defer:
+					common = &t.Call
+				case *ssa.Go:
+					common = &t.Call
+				case *ssa.MakeClosure:
+					if cf, ok := t.Fn.(*ssa.Function); ok && !seen[cf] {
+						seen[cf] = true
+						if dfs(cf) {
+							return true
+						}
+					}
+					continue
+				default:
+					continue
+				}
+				callee := common.StaticCallee()
+				if callee == nil {
+					continue
+				}
+				if callee == fn {
+					path = append(path, f.Name()+" -> "+fn.Name())
+					return true
+				}
+				if !seen[callee] {
+					seen[callee] = true
+					if dfs(callee) {
+						return true
+					}
+				}
+			}
+		}
+		return false
+	}
+	if dfs(fn) {
+		return strings.Join(path, ", ")
+	}
+	return ""
 }
